@@ -56,7 +56,7 @@ func (r CReq) String() string {
 		return c.String() + "{ctx:" + r.Cancel + "}"
 	}
 	switch r.Kind {
-	case "att", "atts", "atts-nokey", "atts-nildata":
+	case "att", "atts", "atts-nokey", "atts-nildata", "atts-longkey":
 		if len(r.Keys) > 8 {
 			return fmt.Sprintf("%s[%d keys k%d..k%d, each %d->%d]", r.Kind, len(r.Keys), r.Keys[0], r.Keys[len(r.Keys)-1], r.S[0], r.T[0])
 		}
@@ -212,7 +212,7 @@ func runReq(ctx context.Context, rl ruler.Service, keys [][]byte, r CReq) []bool
 	var action string
 	var data []*ruler.RulesData
 	switch r.Kind {
-	case "att", "atts", "atts-nokey", "atts-nildata":
+	case "att", "atts", "atts-nokey", "atts-nildata", "atts-longkey":
 		action = ruler.ActionSignBeaconAttestation
 		for i, k := range r.Keys {
 			data = append(data, &ruler.RulesData{WalletName: "Wallet 1", AccountName: fmt.Sprintf("acct-%d", k), PubKey: keys[k],
@@ -223,7 +223,7 @@ func runReq(ctx context.Context, rl ruler.Service, keys [][]byte, r CReq) []bool
 		action = ruler.ActionSignBeaconProposal
 		data = append(data, &ruler.RulesData{WalletName: "Wallet 1", AccountName: fmt.Sprintf("acct-%d", r.Keys[0]), PubKey: keys[r.Keys[0]],
 			Data: &rules.SignBeaconProposalData{Domain: PropDomain(0), Slot: r.Slot, ParentRoot: pat(1), StateRoot: pat(2), BodyRoot: pat(3)}})
-	case "sign", "signs":
+	case "sign", "signs", "signs-longkey":
 		action = ruler.ActionSign
 		for _, k := range r.Keys {
 			dom := make([]byte, 32)
@@ -240,6 +240,12 @@ func runReq(ctx context.Context, rl ruler.Service, keys [][]byte, r CReq) []bool
 	case "atts-nildata":
 		if len(data) > 1 {
 			data[len(data)-1].Data = nil
+		}
+	case "atts-longkey", "signs-longkey":
+		// The last entry spells its key with one byte more than a public key has (accounts are looked up by the first 48
+		// bytes; whoever hands the ruler what a client supplied hands it this).
+		if len(data) > 1 {
+			data[len(data)-1].PubKey = append(append([]byte{}, data[len(data)-1].PubKey...), 0x00)
 		}
 	}
 	res := rl.RunRules(ctx, concCreds, action, data)
